@@ -31,8 +31,8 @@ func Assign(dst, src any) (ok bool) {
 // Walks other registered assign callbacks and try to execute each of them.
 // Stops when current callback return true.
 func AssignBuf(dst, src any, buf AccumulativeBuffer) (ok bool) {
-	if isNilSrc(src) {
-		// There is nothing to assign from; the callbacks dereference pointer sources.
+	if isNilPtr(src) || isNilPtr(dst) {
+		// There is nothing to assign from or to; the callbacks dereference both pointers.
 		return false
 	}
 	for _, fn := range assignFnRegistry {
@@ -43,9 +43,9 @@ func AssignBuf(dst, src any, buf AccumulativeBuffer) (ok bool) {
 	return
 }
 
-// Check if source is a typed nil pointer to one of the builtin types.
-func isNilSrc(src any) bool {
-	switch x := src.(type) {
+// Check if value is a typed nil pointer to one of the builtin types.
+func isNilPtr(v any) bool {
+	switch x := v.(type) {
 	case *[]byte:
 		return x == nil
 	case *string:
